@@ -101,6 +101,10 @@ extern int mpt_stream_poll(MPT_STRUCT(stream) *srm, int what, int timeout)
 		/* regular close */
 		else if (!len) {
 			fd[0].revents |= POLLHUP;
+			/* decoded message still waiting */
+			if (srm->_rd._state.data.msg >= 0) {
+				keep = what & POLLIN;
+			}
 		}
 		/* irregular operation */
 		else {
